@@ -15,11 +15,14 @@ The function is executed symbolically from its first statement; the model of ope
 """
 from __future__ import annotations
 
+import ast
+
 import z3
 
 from pyvc import frontend
 from pyvc.core import Closure, Env, STup, SI, SB, Model, Builtin, Namespace, TypeObj, PyRaise, Unsupported, zi
 from pyvc.unit import run_unit
+from pyvc.models import ZERO
 from contracts.formats import T, Val
 from contracts.direct import term_eq_py
 
@@ -230,3 +233,289 @@ def unit_bd_head(vectors="none", hermitian=True, solver="none", direct=True, h_s
     r = run_unit(f"block_diagonalization:block_diagonalize[head;{label}]", harness, functions=[(MODULE, "block_diagonalize")], timeout_ms=timeout_ms)
     r.bounded.append("two supplied subspaces (their sizes and the dimension symbolic)")
     return r
+
+
+def unit_bd_tail(second_quantized, timeout_ms=20000):
+    """The TAIL of block_diagonalize: from the call of series_computation to the return.
+      * series_computation is called once with exactly one input series, named "H", the algorithm chosen in the head, the scope dictionary and the multiplication;
+      * the function returns (H_tilde, U, U†) in this order: the outputs themselves, or - for second-quantized input - one post-processing wrapper per output, each created from
+        ITS output (shape, n_infinite, dimension names, name) and reading only that output (the wrapper's own behaviour: contracts.secondq.unit_postprocessing_eval)."""
+    from pyvc.core import _Ret
+    fn = frontend.find(MODULE, "block_diagonalize")
+    start = None
+    for k, st in enumerate(fn.body):
+        if isinstance(st, ast.Assign) and isinstance(st.value, ast.Call) and isinstance(st.value.func, ast.Name) and st.value.func.id == "series_computation":
+            start = k
+    if start is None:
+        raise frontend.SourceError("call of series_computation in block_diagonalize not found")
+    frag = fn.body[start:]
+
+    def harness(eng):
+        H, ALG, OP = T("H"), T("algorithm"), T("operator")
+        scope = {"solve_sylvester": T("solver")}
+        calls, made = [], []
+
+        class Out(T):
+            def __init__(s, name):
+                super().__init__(name)
+                s.reads = []
+
+            def m_getattr(s, e, name):
+                if name in ("shape", "n_infinite", "dimension_names", "name"):
+                    return T(name + "-of", s)
+                return super().m_getattr(e, name)
+
+            def m_getitem(s, e, key):
+                s.reads.append(key)
+                return ZERO
+        outs = {"H_tilde": Out("H_tilde"), "U": Out("U"), "U†": Out("U†"), "X": Out("X")}
+
+        def sc(e, series, algorithm=None, scope=None, operator=None):
+            calls.append((series, algorithm, scope, operator))
+            return STup([dict(outs), {}])
+
+        class MadeSeries(Model):
+            def __init__(s, kw):
+                s.kw = kw
+
+        def ctor(e, **kw):
+            m = MadeSeries(kw)
+            made.append(m)
+            return m
+        eng.globals.update({"series_computation": Builtin("series_computation", sc), "BlockSeries": Builtin("BlockSeries", ctor), "zero": ZERO,
+                            "sympy": Namespace("sympy", {"MatrixBase": TypeObj("MatrixBase")}), "NumberOrderedForm": TypeObj("NumberOrderedForm"), "tuple": Builtin("tuple", lambda e, x: STup(list(e.as_seq(x).items)))})
+        env = Env(None, {"H": H, "algorithm": ALG, "scope": scope, "operator": OP, "operators": STup([T("a")] if second_quantized else []), "scalar_input": False})
+        res = None
+        try:
+            for st in frag:
+                eng.exec_stmt(st, env)
+        except _Ret as r:
+            res = r.value
+        ok = len(calls) == 1
+        eng.oblige("series_computation-called-once", z3.BoolVal(ok))
+        if ok:
+            series, alg, scp, op = calls[0]
+            eng.oblige("the-only-input-series-is-the-projected-Hamiltonian-named-H", z3.BoolVal(isinstance(series, dict) and list(series) == ["H"] and series["H"] is H), detail=repr(series)[:200])
+            eng.oblige("algorithm-scope-and-multiplication-are-those-prepared-before", z3.BoolVal(alg is ALG and scp is scope and op is OP))
+        items = eng.as_seq(res).items if res is not None else []
+        eng.oblige("returns-three-series", z3.BoolVal(len(items) == 3), detail=repr(res)[:200])
+        if len(items) != 3:
+            return
+        order = ["H_tilde", "U", "U†"]
+        if not second_quantized:
+            eng.oblige("returns-H_tilde-U-U_adjoint-in-this-order", z3.BoolVal(all(items[k] is outs[order[k]] for k in range(3))), detail=repr(items)[:200])
+            eng.oblige("no-wrapper-series-for-matrix-valued-input", z3.BoolVal(not made))
+            return
+        okw = len(made) == 3 and all(items[k] is made[k] for k in range(3))
+        eng.oblige("second-quantized:one-wrapper-per-output-in-the-order-H_tilde-U-U_adjoint", z3.BoolVal(okw))
+        if not okw:
+            return
+        for k, nm in enumerate(order):
+            kw = made[k].kw
+            meta_ok = all(isinstance(kw.get(a), T) and kw[a].head == a + "-of" and kw[a].args[0] is outs[nm] for a in ("shape", "n_infinite", "dimension_names", "name"))
+            eng.oblige(f"second-quantized:wrapper-{k}-has-the-shape-orders-names-of-{nm}", z3.BoolVal(meta_ok), detail=repr({a: kw.get(a) for a in ("shape", "name")})[:200])
+            for o in outs.values():
+                o.reads.clear()
+            idx = [SI(eng.fresh("i")), SI(eng.fresh("j")), SI(eng.fresh("n"))]
+            eng.call(kw["eval"], idx, {})
+            only = all((not o.reads) for q, o in outs.items() if q != nm) and len(outs[nm].reads) == 1
+            eng.oblige(f"second-quantized:wrapper-{k}-reads-only-{nm}-once-at-the-requested-index", z3.BoolVal(only and all(x is y for x, y in zip(eng.as_seq(outs[nm].reads[0]).items, idx)) if only else False))
+    return run_unit(f"block_diagonalization:block_diagonalize[tail;{'second-quantized' if second_quantized else 'matrix-valued'}]", harness, functions=[(MODULE, "block_diagonalize")], timeout_ms=timeout_ms)
+
+
+def unit_bd_middle(kind="numeric", solver="none", implicit=False, legacy=False, hermitian=True, fully_last=False, timeout_ms=20000):
+    """The MIDDLE of block_diagonalize: from `H_0_diag = ...` (after the H_0 guards) up to the masks (`commuting_blocks`).
+    kind: numeric | scalar-operators (sympy scalar expressions: `*` only) | matrix-operators ; solver: none | custom ; implicit: the last block is a LinearOperator;
+    legacy: the custom solver takes one argument.
+      * the multiplication is matmul when every non-zero H_0 block supports `@`, else mul when all support `*`;  scalar_input iff some block is a sympy scalar expression (not a matrix);
+      * operators = the operators found in the NON-ZERO diagonal blocks of H_0, sorted by (kind, name); with operators the Hamiltonian is wrapped once (H_eval), keeping shape / orders / names;
+      * without a custom solver: the diagonal solver on _extract_diagonal(H, atol, use_implicit, operators) with the caller's atol - or the second-quantized solver on the same diagonal;
+        a custom solver is kept; a one-argument solver is wrapped (Hermitian mode, with a DeprecationWarning) or refused (NotImplementedError otherwise);
+      * use_linear_operator is True exactly for the last diagonal block and exactly when that block of H_0 is a LinearOperator; then full diagonalization of that block and a non-matmul
+        multiplication are refused (ValueError)."""
+    fn = frontend.find(MODULE, "block_diagonalize")
+    start = end = None
+    for k, st in enumerate(fn.body):
+        if start is None and isinstance(st, ast.Assign) and any(isinstance(t, ast.Name) and t.id == "H_0_diag" for t in st.targets):
+            start = k
+        if start is not None and isinstance(st, ast.If) and "commuting_blocks" in ast.unparse(st) and "isinstance(fully_diagonalize, dict)" in ast.unparse(st.test):
+            end = k
+            break
+    if start is None or end is None:
+        raise frontend.SourceError("middle fragment of block_diagonalize not found")
+    frag = fn.body[start:end]
+
+    def harness(eng):
+        nb = 2
+        ATOL = T("atol")
+        kinds = {"numeric": ("ndarray",), "scalar-operators": ("Expr",), "matrix-operators": ("MatrixBase", "Matrix")}[kind]
+        has_ops = kind in ("scalar-operators", "matrix-operators")
+
+        class Blk(Val):
+            def m_hasattr(s, e, name):
+                if name == "__matmul__":
+                    return kind in ("numeric", "matrix-operators")
+                return name == "__mul__"
+        LINOP = Val("implicit_block", ("LinearOperator",))
+        blocks = {0: Blk("H0[0,0]", kinds), 1: (LINOP if implicit else Blk("H0[1,1]", kinds))}
+        LINOP.m_hasattr = lambda e, name: name in ("__matmul__", "__mul__")
+        z1 = eng.branch(eng.fresh("second_diagonal_block_is_zero", "bool")) if not implicit else False
+        reads, made, warns, calls = [], [], [], {"extract": [], "diag": [], "sq": [], "pre": [], "find": []}
+
+        class HS(Model):
+            def m_getattr(s, e, name):
+                if name == "shape":
+                    return STup([nb, nb])
+                if name in ("n_infinite", "dimension_names", "name"):
+                    return T(name + "-of-H")
+                raise Unsupported(f"H.{name}")
+
+            def m_getitem(s, e, key):
+                k = e.as_seq(key).items
+                reads.append(k)
+                i, j = k[0], k[1]
+                i = i % nb if isinstance(i, int) else i
+                if i == 1 and z1:
+                    return ZERO
+                return blocks[i]
+        H = HS()
+        OPA, OPB = T("op_a"), T("op_b")
+
+        def find_operators(e, blk):
+            calls["find"].append(blk)
+            return PSetLike([OPB, OPA])
+
+        class PSetLike(Model):
+            def __init__(s, items):
+                s.items = items
+
+        def set_ctor(e, *a):
+            class S(Model):
+                def m_getattr(s2, e2, name):
+                    if name == "union":
+                        return Builtin("union", lambda e3, *sets: STup([x for st_ in sets for x in st_.items][:2], None, True))
+                    raise Unsupported(name)
+            return S()
+
+        def sorted_(e, seq, key=None):
+            items = list(e.as_seq(seq).items)
+            log_sorted.append(key is not None)
+            return STup(sorted(items, key=lambda t: t.head), None, True)
+        log_sorted = []
+
+        def ctor(e, **kw):
+            made.append(kw)
+            w = HS()
+            w.wrapped = True
+            return w
+        nparams = 1 if legacy is True else 2
+
+        class Kind(Model):
+            def m_is(s, e, other):
+                return other is s
+        KIND_VAR, KIND_POS = Kind(), Kind()
+
+        class Param(Model):
+            def __init__(s, var=False):
+                s.var = var
+
+            def m_getattr(s, e, name):
+                if name == "kind":
+                    return KIND_VAR if s.var else KIND_POS
+                if name == "VAR_POSITIONAL":
+                    return KIND_VAR
+                raise Unsupported(f"Parameter.{name}")
+
+        class Params(Model):
+            def __init__(s, items):
+                s.items = items
+
+            def m_getattr(s, e, name):
+                if name == "values":
+                    return Builtin("values", lambda e2: STup(list(s.items), None, True))
+                raise Unsupported(f"parameters.{name}")
+
+            def m_len(s, e):
+                return len(s.items)
+
+        def signature(e, f):
+            if f is CUSTOM:
+                items = [Param(var=True)] if legacy == "varargs" else [Param() for _ in range(nparams)]
+            else:
+                items = [Param(), Param()]
+            return Namespace("sig", {"parameters": Params(items)})
+        CUSTOM = T("custom_solver")
+        MATMUL, MUL = T("matmul"), T("mul")
+        eng.globals.update({
+            "zero": ZERO, "matmul": MATMUL, "mul": MUL, "find_operators": Builtin("find_operators", find_operators), "set": Builtin("set", set_ctor), "sorted": Builtin("sorted", sorted_),
+            "list": Builtin("list", lambda e, x: STup(list(e.as_seq(x).items), None, True)), "tuple": Builtin("tuple", lambda e, x: STup(list(e.as_seq(x).items))),
+            "hasattr": Builtin("hasattr", lambda e, o, name: o.m_hasattr(e, name)), "BlockSeries": Builtin("BlockSeries", ctor),
+            "sympy": Namespace("sympy", {"MatrixBase": TypeObj("MatrixBase"), "Expr": TypeObj("Expr")}), "generator_types": T("generator_types"),
+            "np": Namespace("np", {"zeros": Builtin("np.zeros", lambda e, shape, dtype=None: FlagArr()), "ndarray": TypeObj("ndarray")}),
+            "sparse": Namespace("sparse", {"linalg": Namespace("linalg", {"LinearOperator": TypeObj("LinearOperator")}), "issparse": Builtin("issparse", lambda e, x: False)}),
+            "_extract_diagonal": Builtin("_extract_diagonal", lambda e, *a: (calls["extract"].append(a), T("diagonal"))[1]),
+            "solve_sylvester_diagonal": Builtin("solve_sylvester_diagonal", lambda e, d, atol=None: (calls["diag"].append((d, atol)), T("diagonal_solver"))[1]),
+            "second_quantization": Namespace("second_quantization", {"solve_sylvester_2nd_quant": Builtin("sq", lambda e, d: (calls["sq"].append(d), T("sq_solver"))[1])}),
+            "signature": Builtin("signature", signature), "warn": Builtin("warn", lambda e, *a, **k: warns.append(a)), "DeprecationWarning": TypeObj("DeprecationWarning"),
+            "_preprocess_sylvester": Builtin("_preprocess_sylvester", lambda e, f: (calls["pre"].append(f), T("wrapped_solver"))[1]), "NumberOrderedForm": TypeObj("NumberOrderedForm"),
+            "any": Builtin("any", lambda e, it: any(e.truth(x) for x in e.as_seq(it).items)), "all": Builtin("all", lambda e, it: all(e.truth(x) for x in e.as_seq(it).items)),
+        })
+
+        class FlagArr(Model):
+            def __init__(s):
+                s.set = []
+
+            def m_setitem(s, e, key, value):
+                s.set.append((tuple(e.as_seq(key).items), value))
+        fully = STup([nb - 1]) if fully_last else STup([])
+        env = Env(None, {"H": H, "zero_order": STup([0]), "solve_sylvester": (CUSTOM if solver == "custom" else None), "use_implicit": implicit, "atol": ATOL, "hermitian": hermitian,
+                         "fully_diagonalize": fully})
+        raised = None
+        try:
+            for st in frag:
+                eng.exec_stmt(st, env)
+        except PyRaise as pr:
+            raised = pr.exc.cls
+        # ---- expected rejections -----------------------------------------------------------------------------------
+        expect = None
+        if implicit and fully_last:
+            expect = "ValueError"
+        elif implicit and kind == "scalar-operators":
+            expect = "ValueError"      # the multiplication of scalar expressions is mul; implicit mode needs matmul
+        elif solver == "custom" and legacy is True and not hermitian:
+            expect = "NotImplementedError"
+        eng.oblige("raises-exactly-for-the-unsupported-combinations", z3.BoolVal(raised == expect), detail=f"raised {raised}, expected {expect}")
+        if raised is not None:
+            return
+        look = lambda n: env.lookup(n) if env.has(n) else None     # noqa: E731
+        want_op = MATMUL if (kind in ("numeric", "matrix-operators")) else MUL
+        eng.oblige("multiplication-is-matmul-if-every-nonzero-block-supports-it-else-mul", z3.BoolVal(look("operator") is want_op), detail=repr(look("operator")))
+        eng.oblige("scalar_input-iff-some-block-is-a-scalar-expression", z3.BoolVal(look("scalar_input") is (kind == "scalar-operators")))
+        ops = look("operators")
+        if has_ops:
+            nz = 1 if (z1 and not implicit) else (1 if implicit else 2)
+            eng.oblige("operators-collected-from-the-nonzero-diagonal-blocks-and-sorted", z3.BoolVal(isinstance(ops, STup) and [o.head for o in ops.items] == ["op_a", "op_b"] and len(calls["find"]) == (2 if not z1 and not implicit else len(calls["find"])) and bool(log_sorted) and all(log_sorted)),
+                       detail=f"operators {ops!r}; find_operators called on {len(calls['find'])} blocks")
+            okw = len(made) == 1 and all(isinstance(made[0].get(a), T) and made[0][a].head == a + "-of-H" for a in ("n_infinite", "dimension_names", "name")) and look("H") is not H and look("H_orig") is H
+            eng.oblige("second-quantized:Hamiltonian-wrapped-once-keeping-shape-orders-and-names", z3.BoolVal(okw), detail=repr(made)[:200])
+        else:
+            eng.oblige("no-operators-no-wrapper", z3.BoolVal(isinstance(ops, STup) and not ops.items and not made and look("H") is H))
+        ss = look("solve_sylvester")
+        if solver == "custom":
+            if legacy is True:
+                eng.oblige("legacy-solver-wrapped-with-a-deprecation-warning", z3.BoolVal(isinstance(ss, T) and ss.head == "wrapped_solver" and calls["pre"] == [CUSTOM] and len(warns) == 1))
+            else:
+                eng.oblige("custom-solver-kept" + ("-a-var-positional-signature-is-not-the-legacy-form" if legacy == "varargs" else ""),
+                           z3.BoolVal(ss is CUSTOM and not calls["pre"] and not warns and not calls["diag"] and not calls["sq"]))
+        else:
+            okd = len(calls["extract"]) == 1 and calls["extract"][0][0] is look("H") and calls["extract"][0][1] is ATOL and calls["extract"][0][2] is implicit and calls["extract"][0][3] is ops
+            eng.oblige("diagonal-extracted-once-from-the-(wrapped)-Hamiltonian-with-atol-implicit-flag-and-operators", z3.BoolVal(okd), detail=repr(calls["extract"])[:200])
+            if has_ops:
+                eng.oblige("second-quantized-solver-on-that-diagonal", z3.BoolVal(isinstance(ss, T) and ss.head == "sq_solver" and len(calls["sq"]) == 1 and not calls["diag"]))
+            else:
+                eng.oblige("diagonal-solver-on-that-diagonal-with-the-callers-atol", z3.BoolVal(isinstance(ss, T) and ss.head == "diagonal_solver" and len(calls["diag"]) == 1 and calls["diag"][0][1] is ATOL and not calls["sq"]))
+        fl = look("use_linear_operator")
+        okf = isinstance(fl, FlagArr) and (fl.set == ([((-1, -1), True)] if implicit else []))
+        eng.oblige("use_linear_operator-marks-exactly-the-last-diagonal-block-iff-it-is-a-LinearOperator", z3.BoolVal(okf), detail=repr(getattr(fl, "set", fl)))
+    lab = f"kind={kind},solver={solver},implicit={implicit},legacy={legacy},hermitian={hermitian},fully_last={fully_last}"
+    return run_unit(f"block_diagonalization:block_diagonalize[middle;{lab}]", harness, functions=[(MODULE, "block_diagonalize")], timeout_ms=timeout_ms)
